@@ -51,6 +51,11 @@ class Sink:
             self.fired.append((plugin, cb, n))
             if exc == "Base":
                 raise PluginFaultBase("%s.%s#%d" % (plugin, cb, n))
+            if exc == "Refused":
+                # what a plugin gets that tidies up after the task handler was closed (e.g. unregisters a tracepoint in its
+                # shutdown): the agent's own refusal, which is not an Exception
+                from deep.task import IllegalStateException
+                raise IllegalStateException("%s.%s#%d" % (plugin, cb, n))
             raise PluginFault("%s.%s#%d" % (plugin, cb, n))
         if k is not None:
             k.yield_point("plugin")
